@@ -212,6 +212,20 @@ def _h_step(ctx, shape, kinds, leader_pos, content_rev, op, argkinds):
             expected.groups[i][1] = [a] + expected.groups[i][1]
             exp_out = "ok"
             gl.update({l: [a] + list(gl.content[l])})
+        elif op == "update_split":
+            # a grouped (non-leader) member is promoted to its own group; the payload is a valid partition
+            cands = [(gi, mi) for gi, g in enumerate(expected.groups) for mi, v in enumerate(g[1]) if not bool(eqv(v, g[0]))]
+            if not cands:
+                from symx import Infeasible
+                raise Infeasible()
+            gi, mi = cands[ctx.choose("which", len(cands))]
+            lead, members = expected.groups[gi]
+            moved = members[mi]
+            rest = [v for k_, v in enumerate(members) if k_ != mi]
+            expected.groups[gi][1] = rest
+            expected.groups.append([moved, [moved]])
+            exp_out = "ok"
+            gl.update({lead: list(rest), moved: [moved]})
         elif op == "remove":
             ia = expected.leader_idx(a)
             if ia is None:
@@ -466,7 +480,7 @@ def obligations(tier):
     ops = [
         ("group", ["i", "i"]), ("group", ["__NAN__", "i"]), ("group", ["i", "__NAN__"]),
         ("group_list", ["i", "i", "i"]), ("append", ["i"]), ("append", ["s_new"]),
-        ("update_new", ["i", "i"]), ("update_existing", ["i"]), ("remove", ["i"]), ("remove", ["__NAN__"]),
+        ("update_new", ["i", "i"]), ("update_existing", ["i"]), ("update_split", ["i"]), ("remove", ["i"]), ("remove", ["__NAN__"]),
         ("pop", ["i"]), ("sort", ["i"]), ("sort_by", ["i"]), ("replace_group_leader", ["i", "i"]),
         ("replace_group_leader", ["__NAN__", "i"]), ("lookup", ["i"]), ("lookup", ["__NAN__"]),
     ]
@@ -487,6 +501,8 @@ def obligations(tier):
                         if op in ("sort",) and any(k == "r" for k in kinds) and any(k == "i" for k in kinds):
                             continue
                         if op in ("update_existing", "pop", "sort_by") and len(sh) == 0 and op != "pop":
+                            continue
+                        if op == "update_split" and not any(s_ > 1 for s_ in sh):
                             continue
                         step_jobs.append(dict(shape=sh, kinds=kinds, leader_pos=lp, content_rev=crev, op=op, argkinds=ak))
     ctor_jobs = []
